@@ -564,14 +564,17 @@ func runC01(in sx.SX) (sx.SX, string) {
 				}
 			}
 		}
-		for round := 0; round < 3 && fail == ""; round++ {
-			rc := calculator.NewExpressionCalculator()
-			if round == 2 {
+		// ONE calculator object through all rounds: an evaluation that fails at run time must not disturb the next one
+		shared := calculator.NewExpressionCalculator()
+		if err := shared.SetExpression(text); err != nil {
+			fail = "rejected: " + err.Error()
+		}
+		for round := 0; round < 6 && fail == ""; round++ {
+			rc := shared
+			if round%3 == 2 {
 				rc.SetVariantOperations(variants.NewTypeSafeVariantOperations())
-			}
-			if err := rc.SetExpression(text); err != nil {
-				fail = "rejected: " + err.Error()
-				break
+			} else {
+				rc.SetVariantOperations(variants.NewTypeUnsafeVariantOperations())
 			}
 			vars := variables.NewVariableCollection()
 			var desc []string
